@@ -109,10 +109,17 @@ class RealRun:
                    on the real base Executor (harness.pipeline) with scripted outcomes.
     """
 
-    def __init__(self, execute=False, outcomes=None, max_steps=60000):
+    def __init__(self, execute=False, outcomes=None, max_steps=60000, hw=None):
         P.reset_globals()
         self.ex = P.TraceExecutor(outcomes=list(outcomes or []), max_steps=max_steps)
-        self.conn = P.PipelineConnection("alice", executor=self.ex)
+        if hw is None:
+            self.sock = None
+            self.conn = P.PipelineConnection("alice", executor=self.ex)
+        else:  # programs with EPR operations (C14): an EPR socket and the requested hardware
+            from harness import sdk_epr as E
+            from netqasm.sdk.epr_socket import EPRSocket
+            self.sock = EPRSocket("bob")
+            self.conn = P.PipelineConnection("alice", executor=self.ex, epr_sockets=[self.sock], **E.hardware(hw))
         self.b = self.conn.builder
         self.mm = self.b._mem_mgr
         self.execute = execute
@@ -203,9 +210,11 @@ class RealRun:
             if t["k"] == "new":
                 f = q.measure()
                 a = f._address
-                assert a == len(self.arrays)
-                self.arrays.append(Array(conn, 1, a))
-                self.futs[(a, 0)] = f
+                if self.sock is None:
+                    assert a == len(self.arrays)
+                if a == len(self.arrays):  # (EPR operations allocate arrays of their own: addresses shift)
+                    self.arrays.append(Array(conn, 1, a))
+                    self.futs[(a, 0)] = f
             elif t["k"] == "fut":
                 q.measure(future=self.fut(t["f"]))
             else:
@@ -264,6 +273,9 @@ class RealRun:
         elif k == "try":
             with conn.try_until_success(max_tries=s["n"]):
                 self.block(s["body"])
+        elif k == "epr":
+            from harness import sdk_epr as E
+            E.run_form(conn, self.sock, s["form"])
         else:
             raise ValueError("unknown statement " + k)
 
@@ -395,7 +407,7 @@ def emits(body):
     """Does a block contain any run-time operation?  (A loop / if whose body has none is a no-op.)"""
     for s in body:
         k = s["k"]
-        if k in ("reg", "qop", "addf", "addr"):
+        if k in ("reg", "qop", "addf", "addr", "epr"):
             return True
         if k in ("if", "loop", "lbody", "foreach", "until", "try") and emits(s["body"]):
             return True
@@ -787,6 +799,14 @@ class Gen:
         rng = self.rng
         n = rng.choice([0, 1, 1, 2, 2, 3]) if allow_empty else rng.choice([1, 1, 2, 3])
         out = []
+        idx = [h for h, r in enumerate(self.regs) if r["live"] and r["kind"] == "rf" and r["loopvar"]]
+        if idx and any(x["defd"] for x in self.arrs) and self.rng.random() < 0.3:
+            # branch on the index of the innermost enclosing loop_body / loop_until, then use a temporary
+            f1, f2 = self.fut_read(), self.fut_read()
+            out.append({"k": "if", "cb": self.rng.random() < 0.5, "c": self.rng.choice(["ez", "nz"]),
+                        "a": {"h": idx[-1]}, "b": {"v": 0},
+                        "body": [{"k": "addf", "f": f1, "o": {"v": 1}, "m": 2 if self.arrs[f1["a"]]["small"] else 5}]})
+            out.append({"k": "addf", "f": f2, "o": {"v": 1}, "m": 2 if self.arrs[f2["a"]]["small"] else 7})
         for _ in range(n):
             if self.budget <= 0:
                 break
@@ -973,9 +993,22 @@ def wild_program(rng):
     return p
 
 
-def completed_op(rng, depth=3):
+def epr_stmt(rng, hw="generic"):
+    """an EPR operation of a random API form, with the register events the model replays"""
+    from harness import sdk_epr as E
+    forms = [f for f in E.all_forms((hw,))]
+    f = rng.choice(forms)
+    ev, err, _ = E.events(f)
+    return {"k": "epr", "form": f, "ev": ev if ev is not None else []}
+
+
+def completed_op(rng, depth=3, h0=None, epr_hw=None):
     """One completed operation of a random kind that binds no permanent register (for the C14 long
-    sequences); uses only arrays 0..2 (created up front) so that it is valid anywhere."""
+    sequences); uses only arrays 0..2 (created up front) so that it is valid anywhere.
+    h0: number of register handles that exist before the operation (None: unknown -> no handle is
+    referenced); with it, bodies of loop_body / loop_until get `if_ez/if_nz` on their own loop index
+    followed by an operation that needs a temporary.  epr_hw: also EPR operations (compile-only)."""
+    nh = [h0]
     def fut():
         a = rng.randrange(3)
         return {"a": a, "i": rng.randrange(2)}
@@ -984,6 +1017,8 @@ def completed_op(rng, depth=3):
         return rng.choice([{"v": rng.randrange(3)}, {"f": fut()}, {"f": fut()}])
 
     def leaf():
+        if epr_hw is not None and rng.random() < 0.35:
+            return epr_stmt(rng, epr_hw)
         k = rng.choice(["qop", "qop", "addf", "addf", "addf2", "qopf", "qopi"])
         if k == "qop":
             return {"k": "qop", "g": [rng.randrange(7)], "t": {"k": "new"}}
@@ -1011,7 +1046,21 @@ def completed_op(rng, depth=3):
                 rg = rng.choice([free[0], free[0], rng.choice(free)])  # explicit: lowest free / any free
                 held = rg
             inner = act | {held}
+        myh = None
+        if k in ("loop", "lbody", "foreach", "until") and nh[0] is not None:
+            myh = nh[0]
+            nh[0] += 1
         body = [op(d - 1, inner) for _ in range(rng.choice([1, 1, 2]))]
+        if myh is not None and k in ("lbody", "until") and rng.random() < 0.6:
+            # branch on the loop's own index (a RegFuture in the register the loop holds), then something
+            # that needs a temporary: the temporary must not land in the loop register
+            idx_if = {"k": "if", "cb": rng.random() < 0.5, "c": rng.choice(["ez", "nz"]), "a": {"h": myh},
+                      "b": {"v": 0}, "body": [{"k": "addf", "f": fut(), "o": {"v": 1}, "m": rng.choice([None, 5])}]}
+            tmp_user = rng.choice([
+                {"k": "addf", "f": fut(), "o": val(), "m": rng.choice([None, 2, 5])},
+                {"k": "if", "cb": True, "c": "ge", "a": {"f": fut()}, "b": {"v": 0},
+                 "body": [{"k": "qop", "g": [], "t": {"k": "fut", "f": fut()}}]}])
+            body = [idx_if, tmp_user] + body
         if k == "if":
             a = val()
             return {"k": "if", "cb": True if "v" in a else rng.random() < 0.5, "c": rng.choice(["eq", "ne", "lt", "ge"]),
@@ -1034,11 +1083,28 @@ def completed_op(rng, depth=3):
     return op(rng.randrange(depth + 1), frozenset())
 
 
-def long_sequence(rng, n_ops, flush_every, depth=3):
+def count_binders(x):
+    """register handles bound by building a statement (loop-like operations bind one each)"""
+    if isinstance(x, list):
+        return sum(count_binders(y) for y in x)
+    if not isinstance(x, dict):
+        return 0
+    n = 1 if x.get("k") in ("loop", "lbody", "foreach", "until", "reg") else 0
+    if x.get("k") == "qop" and x["t"]["k"] == "reg":
+        n += 1
+    n += count_binders(x.get("body", []))
+    if x.get("k") == "until" and emits(x.get("body", [])):
+        n += count_binders(x.get("cl", []))
+    return n
+
+
+def long_sequence(rng, n_ops, flush_every, depth=3, epr_hw=None):
     p = [{"k": "arr", "len": 2, "init": [0, 1]}, {"k": "arr", "len": 2, "init": [1, 1]},
          {"k": "arr", "len": 2, "init": [2, 0]}, {"k": "flush"}]
+    h = 0
     for i in range(n_ops):
-        p.append(completed_op(rng, depth))
+        p.append(completed_op(rng, depth, h0=h, epr_hw=epr_hw))
+        h += count_binders(p[-1])
         if (i + 1) % flush_every == 0:
             p.append({"k": "flush"})
     if p[-1]["k"] != "flush":
